@@ -1,5 +1,5 @@
 ---------------------------- MODULE MC_Gen_Keys ----------------------------
 EXTENDS Gen_Keys
 S2 == {"a", "b"}
-S3 == {"a", "aa", "b"}      \* "aa" starts like "a": segment-wise vs character-wise prefixes differ
+S3 == {"a", "aa", "b.c"}    \* "aa" starts like "a": segment-wise vs character-wise prefixes differ; "b.c": a dot in a name is not an extension
 =============================================================================
